@@ -128,8 +128,12 @@ def expect(kind, prop, value):
             return (REFUSE,)
         except Exception:
             return (UNJUDGED, "codec lookup failed unusually")
-        if info.name.replace("-", "_") in NON_TEXT_CODECS or value.lower().replace("-", "_") in NON_TEXT_CODECS or not getattr(info, "_is_text_encoding", True):
-            return (UNJUDGED, "codec that is not a text encoding")
+        if getattr(info, "_is_text_encoding", True) is False:
+            # the runtime's own verdict ("'rot13' is not a text encoding"): such a codec cannot turn text into the bytes
+            # of a file, it is no encoding of data
+            return (REFUSE,)
+        if info.name.replace("-", "_") in NON_TEXT_CODECS or value.lower().replace("-", "_") in NON_TEXT_CODECS:
+            return (UNJUDGED, "codec with restrictions of its own (escapes, lossy or stateful conversions)")
         return (ACCEPT, value)
     if prop == "allowed_characters":
         items = R.parse_int_range(value)
